@@ -1,8 +1,9 @@
 #!/bin/sh
 # Runs the thorough tier of every check sequentially (used through `vp run --with-repo`), printing wall time and exit code.
 cd "$(dirname "$0")/.."
+mkdir -p out evidence
 [ -n "$VP_RUN_REPO" ] && export VERIF_REPO="$VP_RUN_REPO"
-for p in ${@:-C01 C02 C03 C04 C05 C06 C07 C08 C09 C10 C11 C12 C13 C14 C15 C16 C17 C18 C19 C20}; do
+for p in ${*:-C01 C02 C03 C04 C05 C06 C07 C08 C09 C10 C11 C12 C13 C14 C15 C16 C17 C18 C19 C20}; do
   t0=$(date +%s)
   ./check $p --tier thorough > out/thorough-$p.log 2>&1
   rc=$?
